@@ -4,6 +4,11 @@ from .e1 import H
 
 REG = {}
 
+ENGINES = [
+    {"name": "E1", "path": "harness/prop_*.cpp + harness/common.cpp + vlib/e1.py", "serves_properties": [],
+     "kind_free_text": "rapidcheck harnesses (generated inputs, shrinking, explicit JSON replays) plus complete enumeration of small input spaces; built with ASan+UBSan and assertions on"},
+]
+
 
 def prop(pid):
     def deco(cls):
@@ -14,6 +19,10 @@ def prop(pid):
 
 class E1Prop:
     level = "exploration"
+    engine = "E1"
+    technique = "property-based testing (rapidcheck generators + exhaustive enumeration of small spaces) against an independent reference oracle, ASan/UBSan on"
+    level_text = ""
+    level_note = "trusted: g++ 12 / clang 14 and their sanitizer runtimes, rapidcheck, the reference oracles in /verif/harness (written from the property statement, sharing no code with the library)"
     rule = ""
     assumptions = ()
     min_eval = 1
@@ -38,6 +47,28 @@ class C19(E1Prop):
             "(exhaustive) plus rapidcheck vectors with extents up to 70 under a 60000-cell cap; oracle = visit count per mixed-radix rank must be "
             "exactly 1 and no tuple outside the box; non-trivial = N>=2 and extents not all equal; distinct by (instantiation, extent vector)")
     min_eval = 1000
+    level_text = ("Generated-input search: every extent vector up to a per-dimensionality bound is enumerated and larger ones are sampled; each run "
+                  "compares the multiset of visited tuples with the box. Exhaustive below the bound, sampled above; no claim beyond the explored set.")
 
     def harnesses(self, tier):
         return [H("prop_C19", "prop_C19.cpp", shards=3)]
+
+
+@prop("C18")
+class C18(E1Prop):
+    pid = "C18"
+    rule = ("round_pow2<uintW>: every i in 1..2^(W-1) for W=8,16 (W=32 in the thorough tier), dense blocks at both ends plus every 2^k-2..2^k+2 and "
+            "rapidcheck boundary/random values for W=32,64; ipow<uintW>: all 65536 pairs at W=8, all b x e<=20 at W=16, dense blocks and "
+            "boundary/random (b,e) at W=32,64; oracles: bit-count power of two, left-to-right 128-bit exponentiation cross-checked against repeated "
+            "multiplication; sizing: every extent vector up to B_N and boundary-biased random ones converted row-major -> Morton(BMI2, portable)/Hilbert, "
+            "largest curve position of an in-range coordinate must be below the allocated cell count read back from the converted field. "
+            "non-trivial: i not a power of two / b>=2 and e>=2 / extents not an equal power-of-two cube; distinct by input value(s)")
+    assumptions = ("clang++ build of the numeric harness adds UBSan coverage of promoted 16-bit multiplies that g++ does not instrument",)
+    min_eval = 100000
+    level_text = ("Generated-input search with complete enumeration of the 8- and 16-bit domains (32-bit round_pow2 in the thorough tier) and boundary-biased "
+                  "sampling at 32/64 bits, against independent arithmetic oracles, under g++ and clang UBSan; sizing consequence checked on real converted fields.")
+
+    def harnesses(self, tier):
+        return [H("prop_C18_num_gcc", "prop_C18.cpp", shards=8),
+                H("prop_C18_num_clang", "prop_C18.cpp", shards=8, compiler="clang++"),
+                H("prop_C18_sizing", "prop_C18.cpp", shards=9, defines=["VF_C18_SIZING"], flags=core.SAN + ["-mbmi2"])]
